@@ -6,6 +6,7 @@ import (
 	"context"
 	"encoding/json"
 	"errors"
+	"io"
 	"iter"
 	"reflect"
 )
@@ -22,6 +23,19 @@ type evC struct {
 }
 
 var errInjected = errors.New("verif: injected failure")
+
+// errReadFailure is what the read-side fault injectors return: errInjected, or -
+// when a harness sets errReadEOFShaped - an error that also wraps io.EOF (a store
+// whose connection was dropped mid-read reports exactly that).
+var errReadEOFShaped = false
+
+func errReadFailure() error {
+	if errReadEOFShaped {
+		return errors.Join(errInjected, io.EOF)
+	}
+	return errInjected
+}
+
 var errCallback = errors.New("verif: callback failure")
 
 // pagedOnly hides ReadStream so that Replay takes the paged path; it can fail
@@ -45,7 +59,7 @@ func (p *pagedOnly) Read(ctx context.Context, from Offset, limit int) ([]*Stored
 	p.reads++
 	if i == p.failAt {
 		p.injected = true
-		return nil, from, errInjected
+		return nil, from, errReadFailure()
 	}
 	if p.chunk > 0 && (limit <= 0 || limit > p.chunk) {
 		limit = p.chunk
@@ -77,7 +91,7 @@ func (s *spyStreamer) ReadStream(ctx context.Context, from Offset) iter.Seq2[*St
 		for ev, err := range s.inner.ReadStream(ctx, from) {
 			if i == s.failAt {
 				s.injected = true
-				yield(nil, errInjected)
+				yield(nil, errReadFailure())
 				return
 			}
 			i++
@@ -88,7 +102,7 @@ func (s *spyStreamer) ReadStream(ctx context.Context, from Offset) iter.Seq2[*St
 		if i == s.failAt {
 			// failure at the end of the stream (iteration error after the last row)
 			s.injected = true
-			yield(nil, errInjected)
+			yield(nil, errReadFailure())
 		}
 	}
 }
